@@ -466,6 +466,65 @@ fn main() {
             limit(&mut cr.violations, 3);
             cr
         }));
+        // ---- objects of more than 2048 source blocks (the receiver pre-allocates 2048 block slots and creates the others
+        // lazily) under loss repaired by a second transfer: "for every source block ... all k source symbols"
+        let big: Vec<(u64, u32)> = ctx.tier.pick(vec![(2049u64, 1u32), (3000, 1), (2100, 2)], vec![(2048, 1), (2049, 1), (2050, 1), (3000, 1), (4097, 1), (2100, 2), (2500, 3)]);
+        let nbig = big.len();
+        gens.push(Gen::new("many_blocks_lossy", nbig * 2, move |ctx, i| {
+            let (nblocks, b) = big[i % nbig];
+            let mut rng = Rng::keyed(ctx.seed, "C02big", 0, i as u64);
+            let mut cr = CaseResult::default();
+            let e = 8u16;
+            let mut oti = OtiSpec::new(Fec::NoCode, e, b, 0);
+            oti.inband_fti = i / nbig == 0;
+            let t = nblocks * b as u64 - if b > 1 { 1 } else { 0 };
+            let len = ((t - 1) * e as u64 + rng.range(1, e as u64)) as usize;
+            let spec = SenderSpec::new(OtiSpec::new(Fec::NoCode, 4096, 8, 0));
+            let mut o = ObjSpec::new(rng.bytes(len), "file:///big/o.bin");
+            o.oti = Some(oti.clone());
+            o.max_transfer_count = 2;
+            let em = match util::guarded(|| emit(&spec, &[o], &EmitOpts { max_packets: 40_000, ..Default::default() })) {
+                Ok(Ok(em)) => em,
+                _ => return cr,
+            };
+            if em.tois[0].is_none() {
+                return cr;
+            }
+            let sh = make_shape(format!("big{}x{}", nblocks, b), em);
+            let ov = match sh.views.first() {
+                Some(v) => v,
+                None => return cr,
+            };
+            // a third of the packets of each transfer is lost; every symbol survives in at least one of the two
+            let mut by_sym: std::collections::BTreeMap<(u32, u32), Vec<usize>> = Default::default();
+            for k in &ov.idx {
+                by_sym.entry((sh.em.stream[*k].dec.sbn, sh.em.stream[*k].dec.esi)).or_default().push(*k);
+            }
+            let mut keep: std::collections::BTreeSet<usize> = sh.em.stream.iter().enumerate().filter(|(_, p)| p.toi() == 0).map(|(k, _)| k).collect();
+            for (_, copies) in by_sym {
+                let mut any = false;
+                for c in &copies {
+                    if rng.chance(2, 3) {
+                        keep.insert(*c);
+                        any = true;
+                    }
+                }
+                if !any {
+                    keep.insert(*rng.pick(&copies));
+                }
+            }
+            let delivered: Vec<usize> = keep.into_iter().collect();
+            let (d, ok) = deliver(&sh, &delivered, "many_blocks_lossy", &mut cr.violations);
+            cr.count("deliveries", 1);
+            cr.count("decodable_deliveries", d);
+            cr.count("blocks_of_the_big_objects", nblocks);
+            if d > 0 {
+                cr.shape = Some(util::fnv(&format!("big|{}|{}|{}", nblocks, b, oti.inband_fti)));
+            }
+            cr.sample = Some(json!({"blocks": nblocks, "B": b, "packets_delivered": delivered.len(), "decodable": d, "completed": ok}));
+            limit(&mut cr.violations, 2);
+            cr
+        }));
         // ---- what the receiver needs arrives spread over several COPIES: a multi-packet FDT instance none of whose
         // carousel copies arrives whole (the union does), and a carouselled object none of whose rounds arrives whole.
         // "for an FDT instance listing the object and for every source block the receiver still gets at least k
